@@ -21,3 +21,16 @@
                     continue'
 ./tools_mut.py C16 rf24_mesh.py 'self.release_address(self.frame_buf.header.from_node)' 'self.release_address(self.frame_buf.header.to_node)'
 ./tools_mut.py C16 rf24_mesh.py 'struct.unpack("<H", buffer[index + 2 : index + 4])[0]' 'struct.unpack("<H", buffer[index + 1 : index + 3])[0]'
+./tools_mut.py C16 rf24_mesh.py '            if not search_by_address:
+                if n_id == node_id:' '            if not search_by_address or n_id == node_id:
+                if n_id == node_id:'
+./tools_mut.py C16 rf24_mesh.py '        self.dhcp_dict[node_id] = node_address
+
+    def save_dhcp' '        self.dhcp_dict.setdefault(node_id, node_address)
+
+    def save_dhcp'
+./tools_mut.py C16 rf24_mesh.py '        self.dhcp_dict[node_id] = node_address
+
+    def save_dhcp' '        self.dhcp_dict.update({node_id: node_address})
+
+    def save_dhcp'
